@@ -433,6 +433,24 @@ func runApk(r *hx.Run, rnd *hx.Rand, cfg hx.Config) {
 			r.Fail("", "apk: the last line of a record is ignored: "+quoteShort(f)+fmt.Sprintf(" got=%v", o.tuples))
 		}
 	}
+	// very long lines (a package with thousands of dependencies or provides): the records after
+	// it are still there
+	for _, key := range []string{"D", "p", "r"} {
+		long := key + ":" + strings.Repeat("so:libsomething.so.1 cmd:tool=1.2.3-r4 ", 1800+rnd.Intn(400)) // > 64 KiB
+		db := []apkPkg{
+			{name: "first", version: "1.0-r0", arch: "x86_64", origin: "first", commit: "aa", extras: []string{"C:Q1x="}},
+			{name: "huge", version: "2.0-r1", arch: "x86_64", origin: "huge", commit: "bb", extras: []string{long, "F:usr"}},
+			{name: "after", version: "3.0-r2", arch: "noarch", origin: "after", commit: "cc"},
+			{name: "last", version: "4.0-r3", arch: "noarch"},
+		}
+		file := renderApk(rnd, db, apkSer{tail: "\n"})
+		got := opApk(r, file, true)
+		if ok, _ := checkApkDB(r, db, file, got, false); !ok {
+			short := bytes.Replace(file, []byte(long), []byte(long[:60]+"…("+fmt.Sprint(len(long))+" bytes)"), 1)
+			r.Fail("", fmt.Sprintf("apk: a record with a %d-byte %s: line: scan differs from the database: installed=%q want=%v got=%v err=%v", len(long), key, short, expectedApk(db), got.tuples, got.err))
+		}
+		r.Count("apk:long-line")
+	}
 	// no database: nothing reported
 	if o := scanApk(nil, false); o.err || len(o.tuples) != 0 {
 		r.Fail("", "apk: a layer without lib/apk/db/installed reports packages or fails")
